@@ -71,6 +71,8 @@ type harness struct {
 	kinds   map[int]string
 	timeout bool
 	drift   int
+	closed  bool
+	freeMs  int64 // milliseconds during which the harness itself held no endpoint operation at a closed gate
 	pendingTimeout time.Duration
 	logger  *logging.Logger
 }
@@ -81,6 +83,26 @@ func newHarness(cid string, real bool, mode string, dir string, w io.Writer) *ha
 		out:      bufio.NewWriterSize(w, 1<<16), seq: map[string]int{}, trees: map[string]*core.Entry{},
 		infl: map[int]chan struct{}{}, kinds: map[int]string{}, pendingTimeout: pendingTimeout}
 	h.cond = sync.NewCond(&h.mu)
+	go func() {
+		// the watchdog clock: it only runs while the harness is not itself keeping the loop at a closed gate
+		last := time.Now()
+		for {
+			time.Sleep(20 * time.Millisecond)
+			now := time.Now()
+			h.mu.Lock()
+			held := false
+			for _, t := range h.pending {
+				if t.op != "Poll" {
+					held = true
+				}
+			}
+			if !held {
+				h.freeMs += now.Sub(last).Milliseconds()
+			}
+			h.mu.Unlock()
+			last = now
+		}
+	}()
 	if os.Getenv("VERIF_LC_DEBUG") != "" {
 		h.logger = logging.NewLogger(logging.LevelTrace, os.Stderr)
 	}
@@ -89,6 +111,9 @@ func newHarness(cid string, real bool, mode string, dir string, w io.Writer) *ha
 
 // emitLocked writes one journal record; h.mu must be held.
 func (h *harness) emitLocked(rec map[string]any) {
+	if h.closed {
+		return // the case is over: what the final clean-up does is not part of it
+	}
 	rec["cid"] = h.cid
 	b, err := json.Marshal(rec)
 	if err != nil {
@@ -96,6 +121,7 @@ func (h *harness) emitLocked(rec map[string]any) {
 	}
 	h.out.Write(b)
 	h.out.WriteByte('\n')
+	h.out.Flush()
 	h.events++
 	h.cond.Broadcast()
 }
@@ -176,9 +202,11 @@ func waitCond(c *sync.Cond, d time.Duration) {
 func (h *harness) open(side, op, outcome string) bool {
 	t := h.takePending(side, op, h.pendingTimeout)
 	if t == nil {
+		// the replay has drifted from the script: do not keep the loop waiting at some other gate
 		h.mu.Lock()
 		h.drift++
 		h.mu.Unlock()
+		h.releasePending()
 		return false
 	}
 	t.release <- outcome
@@ -197,6 +225,22 @@ func (h *harness) setAuto(on bool) {
 	for _, t := range h.pending {
 		if on && t.op != "Poll" {
 			t.release <- "ok"
+		} else {
+			keep = append(keep, t)
+		}
+	}
+	h.pending = keep
+	h.mu.Unlock()
+}
+
+// releasePending lets every pending operation (except polls) proceed; counted as schedule drift.
+func (h *harness) releasePending() {
+	h.mu.Lock()
+	var keep []*token
+	for _, t := range h.pending {
+		if t.op != "Poll" {
+			t.release <- "ok"
+			h.drift++
 		} else {
 			keep = append(keep, t)
 		}
@@ -502,24 +546,13 @@ func (h *harness) waitOthers(id int, d time.Duration) {
 
 // call journals the call of command id and issues it on its own goroutine.
 func (h *harness) call(id int, kind string) {
-	// while the daemon is restarting nobody can talk to it
-	for {
-		h.mu.Lock()
-		busy := false
-		for j, ch := range h.infl {
-			if h.kinds[j] == "restart" {
-				select {
-				case <-ch:
-				default:
-					busy = true
-				}
-			}
-		}
-		h.mu.Unlock()
-		if !busy {
-			break
-		}
+	// while the daemon is restarting nobody can talk to it; if the restart is itself waiting for a gated
+	// operation (the replay has drifted from the scripted behaviour), let that operation through
+	for start := time.Now(); h.restartInFlight() && time.Since(start) < cmdWatchdog; {
 		time.Sleep(2 * time.Millisecond)
+		if time.Since(start) > 200*time.Millisecond {
+			h.releasePending()
+		}
 	}
 	done := make(chan struct{})
 	h.mu.Lock()
@@ -539,19 +572,31 @@ func (h *harness) call(id int, kind string) {
 		close(done)
 	}()
 	go func() {
-		select {
-		case <-done:
-		case <-time.After(cmdWatchdog):
+		h.mu.Lock()
+		base := h.freeMs
+		h.mu.Unlock()
+		for {
+			select {
+			case <-done:
+				return
+			case <-time.After(100 * time.Millisecond):
+			}
 			h.mu.Lock()
-			h.timeout = true
-			h.emitLocked(map[string]any{"ev": "Cmd", "id": id, "kind": kind, "phase": "timeout", "result": "timeout", "err": "",
-				"ms": int(time.Since(start).Milliseconds())})
+			expired := h.freeMs-base >= cmdWatchdog.Milliseconds()
+			if expired {
+				h.timeout = true
+				h.emitLocked(map[string]any{"ev": "Cmd", "id": id, "kind": kind, "phase": "timeout", "result": "timeout", "err": "",
+					"ms": int(time.Since(start).Milliseconds())})
+			}
 			h.mu.Unlock()
+			if expired {
+				return
+			}
 		}
 	}()
 }
 
-// wait blocks until command id has returned (or its watchdog fired).
+// wait blocks until command id has returned or its watchdog has fired.
 func (h *harness) wait(id int) bool {
 	h.mu.Lock()
 	ch := h.infl[id]
@@ -559,11 +604,15 @@ func (h *harness) wait(id int) bool {
 	if ch == nil {
 		return true
 	}
-	select {
-	case <-ch:
-		return true
-	case <-time.After(cmdWatchdog + time.Second):
-		return false
+	for {
+		select {
+		case <-ch:
+			return true
+		case <-time.After(50 * time.Millisecond):
+		}
+		if h.isTimedOut() {
+			return false
+		}
 	}
 }
 
@@ -913,6 +962,7 @@ func runCase(cs map[string]any, dir string, w io.Writer) {
 				h.mu.Lock()
 				h.drift++
 				h.mu.Unlock()
+				h.releasePending()
 			}
 			if ta != nil {
 				ta.release <- s.str("out")
@@ -952,6 +1002,7 @@ func runCase(cs map[string]any, dir string, w io.Writer) {
 	h.observe()
 	h.mu.Lock()
 	h.emitLocked(map[string]any{"ev": "End", "drift": h.drift, "allBack": allBack})
+	h.closed = true
 	mgrNow := h.mgr
 	h.mu.Unlock()
 	// leave nothing running behind (bounded)
